@@ -185,7 +185,7 @@ func StateStep() {
 // state, no timeout error is ever reported; leaving a timed state disarms its timer.
 func Timeouts() {
 	scenario := sym.Param("scenario")
-	long, short := time.Hour, 5*time.Millisecond
+	long, short := 50*time.Millisecond, 5*time.Millisecond
 	var p *protocol.Protocol
 	errsAtS2 := -1
 	probe := func() time.Duration {
